@@ -34,13 +34,15 @@ enum {K = 2};   // member Ref slots per Item (the model driver uses the same num
 class Item;
 static void on_dtor(const Item * it);
 static void on_assign(const Item * it);
+static bool g_sched = false;   // scheduled multi-threaded mode: the ideal graph follows the real guards (it is only compared at the end)
 
 class Item : public RefCountable
 {
 public:
    Item() : _val(0) {/* empty */}
    ~Item() {on_dtor(this);}   // body runs before the members (_m[K-1] .. _m[0]) are destroyed
-   Item & operator=(const Item & rhs) {on_assign(this); for (int j=0; j<K; j++) _m[j] = rhs._m[j]; _val = rhs._val; return *this;}
+   // (the reset-to-default of ObjectPool::ReleaseObject goes through here: an observation point for the controlled scheduler)
+   Item & operator=(const Item & rhs) {if (g_sched) vsched::Scheduler::Yield(vsched::K_USER, this); on_assign(this); for (int j=0; j<K; j++) _m[j] = rhs._m[j]; _val = rhs._val; return *this;}
 
    Ref<Item> _m[K];
    int _val;
@@ -237,8 +239,6 @@ struct Ideal
       }
    }
 };
-
-static bool g_sched = false;   // scheduled multi-threaded mode: the ideal graph follows the real guards (it is only compared at the end)
 
 struct Ctx
 {
@@ -760,7 +760,8 @@ static void run_scheduled(int k, const std::string & hdr, const std::string & bo
          std::vector<SchedEv> evs;
          so.on_event = [&evs](const vsched::Event & e) {
             SchedEv se; se.tid = e.tid; se.kind = e.kind;
-            se.id = ((e.kind == vsched::K_ATOMIC_INC)||(e.kind == vsched::K_ATOMIC_DEC)) ? counter_owner(e.ptr) : -1;
+            se.id = ((e.kind == vsched::K_ATOMIC_INC)||(e.kind == vsched::K_ATOMIC_DEC)) ? counter_owner(e.ptr)
+                  : ((e.kind == vsched::K_USER) ? id_of((const Item *) e.ptr) : -1);
             if (se.id != -1) se.snap = count_snapshot();   // the thread is about to park before this atomic operation: the state at the end of its slice
             evs.push_back(se);
          };
@@ -797,6 +798,7 @@ static void run_scheduled(int k, const std::string & hdr, const std::string & bo
                if (evs[e].kind == vsched::K_MUTEX_LOCK) tag = "L";
                else if (evs[e].kind == vsched::K_ATOMIC_INC) {sprintf(buf, "I%d", evs[e].id); pending[evs[e].tid] = buf; snap = evs[e].snap;}
                else if (evs[e].kind == vsched::K_ATOMIC_DEC) {sprintf(buf, "D%d", evs[e].id); pending[evs[e].tid] = buf; snap = evs[e].snap;}
+               else if (evs[e].kind == vsched::K_USER)       {sprintf(buf, "Y%d", evs[e].id); pending[evs[e].tid] = buf; snap = evs[e].snap;}
             }
             o << w << ":" << tag << "/" << snap << " ";
          }
